@@ -155,6 +155,15 @@ func init() {
 	_ = nop
 
 	// stack capture of github.com/pkg/errors (used by cosmossdk.io/errors.Wrap): no stack, the error itself is kept
+	// proto.MessageName (reflection over the registry): the dynamic type's name stands in for the registered name
+	for _, n := range []string{"github.com/gogo/protobuf/proto.MessageName", "github.com/cosmos/gogoproto/proto.MessageName"} {
+		models[n] = func(ex *Exec, fn *ssa.Function, args []Value) Value {
+			if i, ok := args[0].(Iface); ok && i.t != nil {
+				return Str{s: strings.TrimPrefix(i.t.String(), "*")}
+			}
+			return Str{}
+		}
+	}
 	models["github.com/pkg/errors.WithStack"] = func(ex *Exec, fn *ssa.Function, args []Value) Value { return args[0] }
 	models["runtime.Callers"] = func(ex *Exec, fn *ssa.Function, args []Value) Value { return ex.ctx.Int(0) }
 
